@@ -283,7 +283,7 @@ func (ts *SimpleTimers) iterate(ctx context.Context) error {
 		_ = wk.NewJob(func(context.Context, uint64) error {
 			if keep, err := tr.run(); err != nil || !keep {
 				verifGate("timers.job.remove", ts, tr)
-				_ = ts.removeTimer(tr.id)
+				_ = ts.removeTimerInstance(tr)
 			}
 			verifGate("timers.job.done", ts, tr)
 
@@ -330,6 +330,25 @@ func (ts *SimpleTimers) removeAllTimers() int64 {
 
 		removed += c
 	}
+
+	return removed
+}
+
+// removeTimerInstance removes the timer only if it is still the one registered
+// under its id; a timer registered later under the same id is left alone.
+func (ts *SimpleTimers) removeTimerInstance(timer *SimpleTimer) bool {
+	removed, _ := ts.timers.Remove(timer.id, func(i *SimpleTimer, found bool) error {
+		switch {
+		case !found:
+			return nil
+		case i != timer:
+			return ErrLockedSetIgnore
+		default:
+			i.whenRemoved()
+
+			return nil
+		}
+	})
 
 	return removed
 }
